@@ -246,8 +246,9 @@ FlushHand(x) ==
 Flush(x, k) == LET y == FlushTake(x, k) IN IF Took(x, y) THEN y ELSE After(y, k)
 
 \* the end of onDataRequest: cleanup(), then "ok" (refused by a context that is done)
-DqFinish(x) == [x EXCEPT !.dh = "none", !.dctx = IF Dev("DreqKeepsSlot") THEN @ ELSE FALSE, !.dcl = FALSE, !.dqr = <<>>, !.ddone = TRUE,
-                         !.dresp = IF x.ddone THEN @ ELSE Append(@, "ok")]
+DqFinishR(x, r) == [x EXCEPT !.dh = "none", !.dctx = IF Dev("DreqKeepsSlot") THEN @ ELSE FALSE, !.dcl = FALSE, !.dqr = <<>>, !.ddone = TRUE,
+                            !.dresp = IF x.ddone THEN @ ELSE Append(@, r)]
+DqFinish(x) == DqFinishR(x, "ok")
 \* the handler whose close packet started socket.OnClose goes on when that has returned
 DqResume(x) == IF x.dh = "inclose" THEN DqFinish(x) ELSE x
 \* polling.OnClose called for a close packet in a payload (the goroutine of a DoClose that may be inside fn() is another one)
@@ -414,17 +415,17 @@ PeerClose ==
 (* data requests (feature "dreq"): onDataRequest runs on the request's goroutine; its yield points are polling.data.tested   *)
 (* (slot taken, nothing registered yet) and, after every packet other than close, the harness's own listener of the        *)
 (* transport's "packet" event.  A payload is a sequence over "m" (message: the next unused client id), "c" (close), "o"     *)
-(* (pong).                                                                                                                *)
+(* (pong), "X" (a body whose declared length is above the limit: refused with 413, the slot released).                    *)
 Dreq == "dreq" \in Features
-Payloads == CASE PayloadSet = "q" -> {<<"m">>, <<"m", "c", "m">>, <<"o">>}
-              [] PayloadSet = "t" -> {<<>>, <<"m">>, <<"m", "m">>, <<"m", "c", "m">>, <<"o">>, <<"o", "m">>, <<"c">>}
+Payloads == CASE PayloadSet = "q" -> {<<"m">>, <<"m", "c", "m">>, <<"o">>, <<"X">>}
+              [] PayloadSet = "t" -> {<<>>, <<"m">>, <<"m", "m">>, <<"m", "c", "m">>, <<"o">>, <<"o", "m">>, <<"c">>, <<"X">>}
               [] OTHER -> {}
 NMsg(k) == Cardinality({i \in 1..Len(k) : k[i] = "m"})
 RECURSIVE Assign(_, _)
 Assign(k, free) == IF k = <<>> THEN <<>>
                    ELSE IF Head(k) = "m" THEN LET m == CHOOSE x \in free : \A y \in free : x <= y
                                               IN <<Msg(m)>> \o Assign(Tail(k), free \ {m})
-                   ELSE <<P(IF Head(k) = "c" THEN "close" ELSE "pong")>> \o Assign(Tail(k), free)
+                   ELSE <<P(CASE Head(k) = "c" -> "close" [] Head(k) = "X" -> "big" [] OTHER -> "pong")>> \o Assign(Tail(k), free)
 RECURSIVE KStr(_)
 KStr(k) == IF k = <<>> THEN "" ELSE Head(k) \o KStr(Tail(k))
 RECURSIVE BeforeClose(_)
@@ -454,6 +455,8 @@ DqStep ==
     /\ LET a == IF s.dh = "tested" THEN [s EXCEPT !.dh = "run", !.dcl = ~s.ddone] ELSE s IN
        IF a.dqr = <<>>
        THEN s' = DqFinish(a) /\ UNCHANGED ob /\ H([a |-> "post.step", ty |-> "end"])
+       ELSE IF Head(a.dqr).ty = "big"      \* the declared length is above the limit: cleanup, 413, nothing is read
+       THEN s' = DqFinishR(a, "413") /\ UNCHANGED ob /\ H([a |-> "post.step", ty |-> "big"])
        ELSE LET p == Head(a.dqr)
                 b == [a EXCEPT !.dqr = Tail(@)]
                 live == b.rs = "open" /\ b.att["p"]
